@@ -7,6 +7,7 @@ from ..effects import EATTR, EDGE, NATTR, NODE, Effects
 from ..incidence import Balance, Infeasible, MethodAnalysis, Unsupported, compatible, describe_witness, show
 from ..model import CORE_CLASSES, AnalysisError
 from ..paths import describe_valuation, valuations
+from ..selectors import inline_selectors
 from ..report import mk_finding
 
 STRUCT = (NODE, EDGE, NATTR, EATTR)
@@ -47,6 +48,7 @@ def analyse_method(repo, res, prop, cname, fi, directed, writer_names, trusted=(
     """Runs the delta analysis on one method for every valuation of its mode names; adds findings."""
     n_paths = 0
     seen = set()
+    fi = inline_selectors(repo, fi)
     for val in valuations(fi.node, with_strings=True):
         ma = MethodAnalysis(repo, fi, directed, val, trusted_params=trusted, writer_methods=writer_names, cname=cname)
         ma.helper_post = lambda m, cname=cname: helper_postcondition(repo, cname, m, directed, writer_names)
